@@ -145,6 +145,25 @@ type btCase struct {
 	Every  int      `json:"shape_every"` // the node structure is dumped after every Every-th operation (and the last)
 	shapes []string
 	maxLen int
+	panic  string // "<function>: <message>" when the real code panicked; the case ends there
+}
+
+// journal of the running case (kept by the child process, read by the supervising parent after a crash)
+var journal *c07x.OpLog
+
+var btFunc = map[string]string{"ins": "ReplaceOrInsert", "del": "Delete", "delmin": "DeleteMin", "delmax": "DeleteMax", "get": "Get",
+	"getidx": "GetWithIndex", "getat": "GetAt", "asc": "AscendGreaterOrEqual", "desc": "DescendLessOrEqual", "len": "Len", "min": "Min",
+	"max": "Max", "ranks": "GetAt+GetWithIndex"}
+
+// btSafe runs one operation on the real tree; a panic of pkg/btree is a failing input, not a driver failure
+func btSafe(t *btree.BTree, o bop) (obs string, pan string) {
+	journal.Op(o)
+	defer func() {
+		if e := recover(); e != nil {
+			obs, pan = "", fmt.Sprintf("btree.%s: %v", btFunc[o.K], e)
+		}
+	}()
+	return btExec(t, o), ""
 }
 
 func dumpTree(t *btree.BTree) string {
@@ -160,9 +179,18 @@ func genBT(r *rng.R, degree, nops, space, ranksEvery int) btCase {
 	if nops > 5000 { // long histories: a dump of a 3000-item tree is large, eight of them are enough
 		c.Every = nops / 8
 	}
+	journal.Begin(map[string]interface{}{"kind": "bt", "degree": degree})
 	step := func(o bop) {
+		if c.panic != "" {
+			return
+		}
+		ob, pan := btSafe(t, o)
 		c.Ops = append(c.Ops, o)
-		c.Obs = append(c.Obs, btExec(t, o))
+		if pan != "" {
+			c.panic = pan
+			return
+		}
+		c.Obs = append(c.Obs, ob)
 		if k := len(c.Ops) - 1; k%c.Every == 0 {
 			c.shapes = append(c.shapes, fmt.Sprintf("(%d%%nat, %s)", k, dumpTree(t)))
 		}
@@ -213,6 +241,66 @@ func genBT(r *rng.R, degree, nops, space, ranksEvery int) btCase {
 	}
 	step(bop{K: "ranks"})
 	step(bop{K: "len"})
+	return c
+}
+
+// genBTGrowShrinkGrow: the history class that exposes stale state in recycled nodes: grow past maxItems (the root gets
+// children), shrink until the root collapses (the old root and a merged child go to the free list), grow past maxItems again
+// (the split of the root leaf takes nodes from the free list); rank sweeps and rank queries after every phase.
+func genBTGrowShrinkGrow(r *rng.R, degree int) btCase {
+	t := btree.New(degree)
+	c := btCase{Kind: "bt", Degree: degree, Every: 1}
+	journal.Begin(map[string]interface{}{"kind": "bt", "degree": degree})
+	step := func(o bop) {
+		if c.panic != "" {
+			return
+		}
+		ob, pan := btSafe(t, o)
+		c.Ops = append(c.Ops, o)
+		if pan != "" {
+			c.panic = pan
+			return
+		}
+		c.Obs = append(c.Obs, ob)
+		if k := len(c.Ops) - 1; k%c.Every == 0 {
+			c.shapes = append(c.shapes, fmt.Sprintf("(%d%%nat, %s)", k, dumpTree(t)))
+		}
+		if t.Len() > c.maxLen {
+			c.maxLen = t.Len()
+		}
+	}
+	max := 2*degree - 1
+	space := 6 * degree
+	probe := func() {
+		step(bop{K: "ranks"})
+		for j := 0; j < 4; j++ {
+			step(bop{K: "getidx", X: r.Intn(space)})
+			step(bop{K: "getat", X: r.Intn(t.Len() + 1)})
+		}
+		step(bop{K: "len"})
+	}
+	for round := 0; round < 2; round++ {
+		for guard := 0; t.Len() < max+2+r.Intn(degree) && guard < 100*space; guard++ {
+			step(bop{K: "ins", X: r.Intn(space)})
+		}
+		probe()
+		low := max - 1 - r.Intn(degree/2+1) // at most 2*degree-2 items: the two children of the root have merged
+		for guard := 0; t.Len() > low && guard < 100*space; guard++ {
+			switch r.Intn(4) {
+			case 0:
+				step(bop{K: "delmin"})
+			case 1:
+				step(bop{K: "delmax"})
+			default:
+				step(bop{K: "del", X: r.Intn(space)})
+			}
+		}
+		probe()
+	}
+	for guard := 0; t.Len() < max+3 && guard < 100*space; guard++ {
+		step(bop{K: "ins", X: r.Intn(space)})
+	}
+	probe()
 	return c
 }
 
@@ -280,7 +368,9 @@ func (o rop) coq() string {
 }
 
 type world struct {
-	ri *core.RegionsInfo
+	ri        *core.RegionsInfo
+	malformed bool   // the case belongs to the malformed stream (a nil dereference in SetRegion / RemoveRegion is modelled)
+	panic     string // "<function>: <message>" of a panic of the real code that is not such an observation
 }
 
 func randFam(ri *core.RegionsInfo, fam string, store uint64, ranges []core.KeyRange) *core.RegionInfo {
@@ -295,11 +385,19 @@ func randFam(ri *core.RegionsInfo, fam string, store uint64, ranges []core.KeyRa
 	return ri.RandPendingRegion(store, ranges)
 }
 
-// exec runs one op on the real RegionsInfo; a panic (nil dereference) is an observation.
+// exec runs one op on the real RegionsInfo.  A nil dereference inside SetRegion / RemoveRegion on the malformed stream is an
+// observation the model predicts (RemoveRegion(nil)); every other panic of the real code is a failing input.
 func (w *world) exec(o *rop) (obs string) {
+	journal.Op(o)
 	defer func() {
 		if e := recover(); e != nil {
-			obs = "RoBad \"nil-deref\""
+			msg := fmt.Sprint(e)
+			if w.malformed && (o.K == "set" || o.K == "remove") && strings.Contains(msg, "nil pointer dereference") {
+				obs = "RoBad \"nil-deref\""
+				return
+			}
+			w.panic = fmt.Sprintf("RegionsInfo.%s: %s", o.K, msg)
+			obs = "RoBad \"panic\""
 		}
 	}()
 	ri := w.ri
@@ -382,10 +480,11 @@ func (w *world) exec(o *rop) (obs string) {
 }
 
 type riCase struct {
-	Kind string   `json:"kind"`
-	Ops  []rop    `json:"ops"`
-	Obs  []string `json:"obs"`
-	tags map[string]int
+	Kind  string   `json:"kind"`
+	Ops   []rop    `json:"ops"`
+	Obs   []string `json:"obs"`
+	tags  map[string]int
+	panic string
 }
 
 func (c riCase) coq() string {
@@ -413,7 +512,16 @@ func (g *riGen) step(o rop) string {
 	if g.dead {
 		return ""
 	}
+	if len(g.c.Ops) == 0 {
+		journal.Begin(map[string]interface{}{"kind": "ri"})
+	}
 	ob := g.w.exec(&o)
+	if g.w.panic != "" {
+		g.c.panic = g.w.panic
+		g.c.Ops = append(g.c.Ops, o)
+		g.dead = true
+		return ""
+	}
 	if o.K == "set" && strings.HasPrefix(ob, "RoBad") {
 		g.dead = true // the real object may be half-updated after a panic: the case ends here
 	}
@@ -553,7 +661,7 @@ func (g *riGen) nextStamp() int64 { g.stamp++; return g.stamp }
 // mixed with arbitrary well-formed overlapping puts and removals.
 func genRI(r *rng.R, a c07x.Alphabet, nmut int, malformed bool) riCase {
 	c := riCase{Kind: "ri", tags: map[string]int{}}
-	g := &riGen{r: r, a: a, w: &world{ri: core.NewRegionsInfo()}, c: &c, stores: 3 + r.Intn(3), cached: map[uint64]c07x.Region{}}
+	g := &riGen{r: r, a: a, w: &world{ri: core.NewRegionsInfo(), malformed: malformed}, c: &c, stores: 3 + r.Intn(3), cached: map[uint64]c07x.Region{}}
 	sim := c07x.NewSim(a, g.stores, &g.stamp, r)
 	var stale []c07x.Region
 	c.tags["alphabet:"+a.Name]++
@@ -715,7 +823,7 @@ func mangle(r *rng.R, x c07x.Region, tags map[string]int) c07x.Region {
 // then the region goes away; the pending-peer count of that store must return to 0.
 func foreignPendingProbe(variant int) riCase {
 	c := riCase{Kind: "ri", tags: map[string]int{"probe:foreign-pending": 1}}
-	g := &riGen{r: rng.New(uint64(variant)), a: c07x.Small(), w: &world{ri: core.NewRegionsInfo()}, c: &c, stores: 4, cached: map[uint64]c07x.Region{}}
+	g := &riGen{r: rng.New(uint64(variant)), a: c07x.Small(), w: &world{ri: core.NewRegionsInfo(), malformed: true}, c: &c, stores: 4, cached: map[uint64]c07x.Region{}}
 	x := c07x.Region{ID: 1, Start: "a", End: "c", Peers: []c07x.Peer{{101, 1, false}, {102, 2, false}, {103, 3, false}}, Leader: 101,
 		Pending: []c07x.Peer{{109, 4, false}}, Size: 10, Ver: 1, ConfVer: 1, Term: 1, Stamp: 1}
 	g.step(rop{K: "set", R: &x})
@@ -735,7 +843,7 @@ func foreignPendingProbe(variant int) riCase {
 // the size: the follower size of that store must follow the region's size.
 func sharedStoreProbe() riCase {
 	c := riCase{Kind: "ri", tags: map[string]int{"probe:shared-store": 1}}
-	g := &riGen{r: rng.New(7), a: c07x.Small(), w: &world{ri: core.NewRegionsInfo()}, c: &c, stores: 3, cached: map[uint64]c07x.Region{}}
+	g := &riGen{r: rng.New(7), a: c07x.Small(), w: &world{ri: core.NewRegionsInfo(), malformed: true}, c: &c, stores: 3, cached: map[uint64]c07x.Region{}}
 	x := c07x.Region{ID: 1, Start: "a", End: "c", Peers: []c07x.Peer{{101, 1, false}, {102, 2, false}, {103, 2, false}}, Leader: 101,
 		Size: 10, Ver: 1, ConfVer: 1, Term: 1, Stamp: 1}
 	g.step(rop{K: "set", R: &x})
@@ -814,7 +922,19 @@ func main() {
 	tier := flag.String("tier", "quick", "")
 	corpus := flag.String("corpus", "", "json file of fixed cases run first")
 	replay := flag.String("replay", "", "json file with cases: run and print observations")
+	child := flag.Bool("child", false, "internal: this process runs the cases (the parent supervises it)")
+	oplog := flag.String("oplog", "", "internal: journal of the running case")
 	flag.Parse()
+	// the cases run in a child process: a fatal runtime error of the real code (stack overflow ...) that recover() cannot
+	// catch is reported by the parent with the journalled case
+	c07x.Supervise(*child || *replay != "", "C07", *seed, *tier, *out, func(h, last map[string]interface{}) string {
+		k, _ := last["k"].(string)
+		if h["kind"] == "bt" {
+			return "btree." + btFunc[k]
+		}
+		return "RegionsInfo." + k
+	})
+	journal = c07x.OpenOpLog(*oplog)
 	log.ReplaceGlobals(zap.NewNop(), nil)
 
 	R := res.New("C07", *seed, *tier)
@@ -831,6 +951,12 @@ func main() {
 
 	var all []interface{}
 	emitBT := func(c btCase) {
+		if c.panic != "" {
+			fn := strings.SplitN(c.panic, ":", 2)[0]
+			R.Violate("C07:implementation-panicked:"+fn, c.panic+" (last operation of the replayed case)", map[string]interface{}{"kind": "bt", "degree": c.Degree, "ops": c.Ops})
+			R.Count("panicked:" + fn)
+			return
+		}
 		for i, o := range c.Ops {
 			R.Count("bt-op:" + o.K)
 			R.Count("bt-obs:" + strings.Fields(c.Obs[i])[0])
@@ -850,6 +976,12 @@ func main() {
 		all = append(all, c)
 	}
 	emitRI := func(c riCase) {
+		if c.panic != "" {
+			fn := strings.SplitN(c.panic, ":", 2)[0]
+			R.Violate("C07:implementation-panicked:"+fn, c.panic+" (last operation of the replayed case)", map[string]interface{}{"kind": "ri", "ops": c.Ops})
+			R.Count("panicked:" + fn)
+			return
+		}
 		for i, o := range c.Ops {
 			R.Count("ri-op:" + o.K)
 			R.Count("ri-obs:" + strings.Fields(c.Obs[i])[0])
@@ -892,11 +1024,21 @@ func main() {
 				if c.Every <= 0 {
 					c.Every = 1
 				}
+				journal.Begin(map[string]interface{}{"kind": "bt", "degree": c.Degree})
 				for k, o := range c.Ops {
-					c.Obs = append(c.Obs, btExec(t, o))
+					ob, pan := btSafe(t, o)
+					if pan != "" {
+						c.panic = pan
+						c.Ops = c.Ops[:k+1]
+						break
+					}
+					c.Obs = append(c.Obs, ob)
 					if k%c.Every == 0 {
 						c.shapes = append(c.shapes, fmt.Sprintf("(%d%%nat, %s)", k, dumpTree(t)))
 					}
+				}
+				if *replay != "" && c.panic != "" {
+					fmt.Println("PANIC:", c.panic)
 				}
 				emitBT(c)
 			} else {
@@ -905,14 +1047,24 @@ func main() {
 					panic(err)
 				}
 				c.tags = map[string]int{"fixed": 1}
-				w := &world{ri: core.NewRegionsInfo()}
+				w := &world{ri: core.NewRegionsInfo(), malformed: true}
 				c.Obs = nil
+				journal.Begin(map[string]interface{}{"kind": "ri"})
 				for i := range c.Ops {
-					c.Obs = append(c.Obs, w.exec(&c.Ops[i]))
+					ob := w.exec(&c.Ops[i])
+					if w.panic != "" {
+						c.panic = w.panic
+						c.Ops = c.Ops[:i+1]
+						break
+					}
+					c.Obs = append(c.Obs, ob)
+				}
+				if *replay != "" && c.panic != "" {
+					fmt.Println("PANIC:", c.panic)
 				}
 				emitRI(c)
 			}
-			if *replay != "" {
+			if *replay != "" && len(all) > 0 {
 				switch c := all[len(all)-1].(type) {
 				case btCase:
 					for i := range c.Ops {
@@ -955,6 +1107,12 @@ func main() {
 			emitRI(c)
 		}
 		degrees := []int{2, 3, 4, 64}
+		// grow / shrink / grow around maxItems (node recycling through the free list), every degree, in every run
+		for k, d := range []int{64, 2, 3, 4, 64, 64} {
+			c := genBTGrowShrinkGrow(master.Fork(uint64(3000000+k)), d)
+			R.Count("bt-class:grow-shrink-grow")
+			emitBT(c)
+		}
 		nbt := *n / 2
 		for k := 0; k < nbt; k++ {
 			r := master.Fork(uint64(1000000 + k))
